@@ -38,12 +38,13 @@ O_ORIGIN = ["absent", None, "https://origin.example"]
 O_SUPPRESS = [False, True]
 O_SUBP = [None, ["a"], ["a", "b"], ["chat", "superchat", "v2.chat"]]
 O_COOKIE = [None, "c=9; d=10"]
-O_HEADER = [None, ["X-One: 1", "X-Two: two words"], {"X-One": "1", "X-Two": "two words"}, {"X-One": "1", "X-None": None}]
+O_HEADER = [None, ["X-One: 1", "X-Two: two words"], {"X-One": "1", "X-Two": "two words"}, {"X-One": "1", "X-None": None},
+            {"X-One": "1", "X-Empty": "", "X-None": None, "X-Zero": "0"}, ["X-Empty: ", "X-Zero: 0"]]
 O_CONN = [None, "Connection: keep-alive, Upgrade"]
 
 
 def bounds(tier):
-    return "576 URLs x 768 option combinations%s; 3 successive connections for key freshness" % (" (full cross product)" if tier == "thorough" else " (quick: axes + diagonal)")
+    return "576 URLs x 1152 option combinations%s; 3 successive connections for key freshness" % (" (full cross product)" if tier == "thorough" else " (quick: axes + diagonal)")
 
 
 def urls():
@@ -393,7 +394,7 @@ def run_task(desc):
     elif part == "opts":
         for o in O:
             run(U[desc["url"]], o)
-        res["samples"].append({"url": make_url(U[desc["url"]]), "options": "all 768 combinations"})
+        res["samples"].append({"url": make_url(U[desc["url"]]), "options": "all 1152 combinations"})
     elif part == "diag":
         for i, u in enumerate(U):
             run(u, O[(i * 7 + 3) % len(O)])
@@ -402,7 +403,7 @@ def run_task(desc):
         for u in U[desc["ulo"]:desc["uhi"]]:
             for o in O:
                 run(u, o)
-        res["samples"].append({"url": make_url(U[desc["ulo"]]), "options": "all 768 combinations"})
+        res["samples"].append({"url": make_url(U[desc["ulo"]]), "options": "all 1152 combinations"})
     elif part == "successive":
         for j, o in enumerate(O):
             if j % 4 != desc["k"]:
